@@ -67,6 +67,26 @@ _logger = logging.getLogger("vgi_rpc.http")
 _REQUEST_ID_HEADER = "X-Request-ID"
 
 
+class _ArrowBodyError(falcon.HTTPError):
+    """Marker for Falcon errors that must leave as an Arrow IPC error stream.
+
+    The RPC status mapping promises that every 400 and 413 carries a decodable
+    Arrow IPC body, so a client reads the rejection the same way whichever
+    layer produced it.  The request-size and content-decoding checks run as
+    middleware, before any resource; raising Falcon's stock errors from there
+    produced Falcon's JSON body instead.  The error serializer recognises this
+    marker and writes the error batch.
+    """
+
+
+class _ArrowContentTooLarge(_ArrowBodyError, falcon.HTTPContentTooLarge):
+    """413 whose body is an Arrow IPC error stream."""
+
+
+class _ArrowBadRequest(_ArrowBodyError, falcon.HTTPBadRequest):
+    """400 whose body is an Arrow IPC error stream."""
+
+
 class _TransportNotifyMiddleware:
     """Fires :meth:`RpcServer._notify_transport` once per process, on the first request.
 
@@ -124,7 +144,7 @@ class _MaxRequestBytesMiddleware:
 
     def _raise_too_large(self, size: int) -> NoReturn:
         """Raise Falcon's standardized 413 response."""
-        raise falcon.HTTPContentTooLarge(
+        raise _ArrowContentTooLarge(
             title="Request body exceeds max_request_bytes",
             description=(
                 f"Request body of at least {size} bytes exceeds the server's advertised "
@@ -560,7 +580,7 @@ class _CompressionMiddleware:
             # and is exactly what the client sent.
             _current_request_batch.set(decompressed)
         except DecompressionLimitExceeded as exc:
-            raise falcon.HTTPContentTooLarge(
+            raise _ArrowContentTooLarge(
                 title="Request body exceeds max_request_bytes after decompression",
                 description=(
                     f"Decompressed {req_enc.value} request body exceeds the server's advertised "
@@ -568,7 +588,7 @@ class _CompressionMiddleware:
                 ),
             ) from exc
         except Exception as exc:
-            raise falcon.HTTPBadRequest(
+            raise _ArrowBadRequest(
                 title="Decompression Error",
                 description=f"Failed to decompress {req_enc.value} request body: {exc}",
             ) from exc
